@@ -313,7 +313,7 @@ def fmt_date(t):
 
 
 # =========================================================================== the property oracle (public API only)
-def oracle_list(items, lead="", trail="", probes=None, style="environ"):
+def oracle_list(items, lead="", trail="", probes=None, style="environ", classify=True):
     """If-Match / If-None-Match carrying the rendered list: membership must be exact.  Returns (key, msg) or None."""
     from webob import Request
     value = render(items, lead, trail)
@@ -333,11 +333,11 @@ def oracle_list(items, lead="", trail="", probes=None, style="environ"):
         for p in probes:
             got_inm, got_im = p in inm, p in im
             if got_inm is not (p in alltags):
-                return classify_list(items, lead, trail), \
+                return (classify_list(items, lead, trail) if classify else "x"), \
                     "If-None-Match: %s -- (%r in request.if_none_match) is %r, the list %s that tag" % (
                         value, p, got_inm, "contains" if p in alltags else "does not contain")
             if got_im is not (p in strong):
-                return classify_list(items, lead, trail), \
+                return (classify_list(items, lead, trail) if classify else "x"), \
                     "If-Match: %s -- (%r in request.if_match) is %r, the list %s that tag as a strong tag" % (
                         value, p, got_im, "contains" if p in strong else "does not contain")
     except Exception as e:  # noqa
@@ -345,25 +345,19 @@ def oracle_list(items, lead="", trail="", probes=None, style="environ"):
     return None
 
 
-def _list_ok(items, lead, trail):
-    from webob.etag import ETagMatcher
-    value = render(items, lead, trail)
-    try:
-        m = ETagMatcher.parse(value, strong=False)
-        return list(getattr(m, "etags", None) or []) == [t for _, _, t in items]
-    except Exception:  # noqa
-        return False
+def _passes(items, lead="", trail=""):
+    return oracle_list(items, lead, trail, classify=False) is None
 
 
 def classify_list(items, lead, trail):
     """A specific key for a failing list: which spelling feature makes it fail."""
     canon = [(", ", w, t) for _, w, t in items]
-    if _list_ok(canon, "", ""):
+    if _passes(canon):
         # the same tags are read correctly with ', ' separators: the separator spelling is what fails
         tight = any(s and s[-1] == "," for s, _, _ in items[1:]) or (lead and lead[-1] == ",")
         return "etag-list:no-whitespace-before-tag" if tight else "etag-list:separator-spelling"
     nobs = [(", ", w, t.rstrip("\\") + ("_" if t.endswith("\\") else "")) for _, w, t in items]
-    if any(t.endswith("\\") for _, _, t in items) and _list_ok(nobs, "", ""):
+    if any(t.endswith("\\") for _, _, t in items) and _passes(nobs):
         return "etag-list:backslash-before-closing-quote"
     return "etag-list:membership"
 
@@ -500,9 +494,11 @@ def oracle_malformed(value):
         try:
             m = getattr(mk_request(**{key: value}), which)
         except Exception as e:  # noqa
-            datey = which == "if_range" and value.endswith(" GMT")
-            return ("getter-raises:%s:%s%s" % (which, "date:" if datey else "", type(e).__name__),
-                    "request.%s raises %s (%s) for the header value %r" % (which, type(e).__name__, e, value))
+            if which == "if_range" and value.endswith(" GMT") and isinstance(e, (ValueError, OverflowError, OSError)):
+                key = "if-range:unrepresentable-date-raises"     # parse_date lets datetime/mktime_tz errors escape
+            else:
+                key = "getter-raises:%s:%s" % (which, type(e).__name__)
+            return key, "request.%s raises %s (%s) for the header value %r" % (which, type(e).__name__, e, value)
         if which == "if_range":
             if type(m) not in (IfRange, IfRangeDate):
                 return "getter-type:if_range", "request.if_range is %r for %r" % (m, value)
@@ -741,9 +737,15 @@ def run(ctx):
     # ---------------------------------------------------------------- oracle sweeps (public API, independent reference)
     def sweep(name, gen_cases, nontrivial=lambda c: True):
         cnt = nt = 0
+        seen = set()
         for case in gen_cases:
             cnt += 1
-            nt += 1 if nontrivial(case) else 0
+            sig = json.dumps(case, sort_keys=True)
+            if sig not in seen:
+                seen.add(sig)
+                nt += 1 if nontrivial(case) else 0
+                if cnt == 3 and len(ctx.samples) < 12:
+                    ctx.samples.append({"oracle": name, "case": case})
             r = oracle_case(case)
             if r:
                 ctx.fail(r[0], r[1], case, True, name)
@@ -766,6 +768,10 @@ def run(ctx):
                     for lead, trail in (("", ","), (",", ""), (" ", " "), (", ", " ,")):
                         yield list_case([("", False, ts_[0]), (sep, True, ts_[1])], lead, trail)
 
+    seeds = [[("", False, "a"), (",", False, "b")], [("", False, "a"), (" ,", False, "b")],
+             [("", False, "a\\"), (", ", False, "b")], [("", True, "a"), (",", True, "b"), ("\t,\t", False, "c")],
+             [("", False, "a, b"), (",", False, "c\\"), (" , ", True, "\\")]]
+    sweep("lists-seeds", [list_case(it) for it in seeds] + [list_case(it, ",", ",") for it in seeds])
     sweep("lists-exhaustive", exhaustive(), lambda c: len(c["items"]) > 1 or not c["items"][0][2].isalnum())
 
     def random_lists():
